@@ -8,6 +8,8 @@ information for the Rust side only and are dropped).  Array arguments are store 
 operations take `@1,2,3` (positions) or `@L5` (all members of the list stored at 5).  A step named `s.<op>` is a string-array operation; a step named `u.<op>` is an
 unmodelled call: its last field `=A2,3` / `=L2,3/2,3` / `=N` is what the real call returned when the chain was generated.
 Answer: `ok r0;r1;…` with one record per step: `A<shape>` | `L<shape>/<shape>…` | `E` | `P` | `S`(kipped) | `X`(extern).
+A step whose last field is `v` (emitted for `ediff1d` / `diff` / `insert_axis` / `convolve` on chains whose real values are the
+model's tag values) is answered with the element VALUES as well: `A<shape>:<v0>,<v1>,…`.
 -/
 namespace Driver.C01
 open ArrModel ArrModel.C01 Driver
@@ -94,6 +96,13 @@ def parseStep (name : String) (args : List String) : Option Op :=
   if name.startsWith "u." then (args.getLast?).bind ext? |>.map Op.extern else
   if name.startsWith "s." then parseStrStep (name.drop 2).toString args else
   match name, args with
+  | "ediff1d", [a, e, b] => do some (.ediff1d (← ref? a) (← optRef? e) (← optRef? b))
+  | "diff", [a, n, ax, p, q] => do some (.diff (← ref? a) (← parseNat? n) (← optInt? ax) (← optRef? p) (← optRef? q))
+  | "insert_axis", [a, ix, v, ax] => do some (.insertAxis (← ref? a) (← parseNatList? ix) (← ref? v) (← parseNat? ax))
+  | "convolve", [a, b, m] => do some (.convolve (← ref? a) (← ref? b) (if m == "none" then none else some m.toList))
+  | "modf", [a] => do some (.modf (← ref? a))
+  | "divmod", [a] => do some (.divmod (← ref? a))
+  | "frexp", [a] => do some (.frexp (← ref? a))
   | "slice", [a, lo, hi] => do some (.slice (← ref? a) (← parseNat? lo) (← parseNat? hi))
   | "indices_at", [a, ix] => do some (.indicesAt (← ref? a) (← parseNatList? ix))
   | "filter_map", [a] => do some (.filterMapNonzero (← ref? a))
@@ -204,24 +213,26 @@ def parseStep (name : String) (args : List String) : Option Op :=
 
 def showShape (a : A) : String := showNatList a.shape
 
-def showVal (isExt : Bool) : Val → String
-  | .arr a => (if isExt then "X" else "A") ++ showShape a
+def showVal (isExt : Bool) (vals : Bool := false) : Val → String
+  | .arr a => (if isExt then "X" else "A") ++ showShape a ++ (if vals then ":" ++ showIntList a.elems else "")
   | .list l => (if isExt then "X" else "L") ++ "/".intercalate (l.map showShape)
   | .err _ => "E"
   | .panic => "P"
   | .skip => if isExt then "X" else "S"
 
-def parseChain (steps : List String) : Option (List (Bool × Op)) :=
+def parseChain (steps : List String) : Option (List (Bool × Bool × Op)) :=
   steps.mapM fun st =>
     match (st.splitOn "|").filter (fun f => !f.startsWith "#") with
     | [] => none
-    | name :: args => (parseStep name args).map fun op => (name.startsWith "u.", op)
+    | name :: args =>
+      let vals := !name.startsWith "u." && args.getLast? == some "v"
+      (parseStep name (if vals then args.dropLast else args)).map fun op => (name.startsWith "u.", vals, op)
 
 /-- `handle label steps` — the label (last operation of the chain) is only a statistic -/
 def handle (_label : String) (steps : List String) : Option String := do
   let ops ← parseChain steps
-  let store := run (ops.map (·.2))
-  some ("ok " ++ ";".intercalate ((ops.zip store).map fun p => showVal p.1.1 p.2))
+  let store := run (ops.map (·.2.2))
+  some ("ok " ++ ";".intercalate ((ops.zip store).map fun p => showVal p.1.1 p.1.2.1 p.2))
 
 end Driver.C01
 
